@@ -3,6 +3,7 @@ package main
 // Symbolic executor over go/ssa: unrolled/cut control-flow DAG with state merging.
 
 import (
+	"runtime/debug"
 	"container/heap"
 	"go/ast"
 	"os"
@@ -153,6 +154,10 @@ func (ex *Exec) newCell(name string, sort *Sort, typ types.Type) *Cell {
 }
 
 func (ex *Exec) fail(format string, args ...any) {
+	if os.Getenv("GVC_STACK") != "" {
+		fmt.Fprintf(os.Stderr, format+"\n", args...)
+		debug.PrintStack()
+	}
 	panic(unsupported(fmt.Sprintf(format, args...)))
 }
 
